@@ -182,6 +182,22 @@ class OrderBookSetup(Contract):
                 z3.ForAll([k], z3.Implies(z3.And(k >= 0, k < g.get('T')), z3.And(tpf(k) == 10 * k, ctx['g'].get('__fun__')['dt'](k) == 1)))]
         return hard, soft
 
+    def sample(self, case, rng):
+        """random small instance: grid of 1..4 steps (60 % non-uniform), orders starting / ending on grid points,
+        between them, before and after the horizon"""
+        from pyvc import native as N
+        T = rng.randint(1, 4)
+        nO = rng.randint(0, 3)
+        inst = [-5] + [v for k in range(T + 1) for v in (10 * k, 10 * k + 5)]
+        P = N.Params(g_T=T, r_n=T, n_orders=nO, wacc=rng.choice([0.0, 0.0, 0.5]), r_I=list(range(T)), g_tp=[10 * k for k in range(T)],
+                     g_dt=[rng.choice(N.POS) for _ in range(T)] if rng.random() < 0.6 else [1.0] * T, g_df=[1.0] * T)
+        st = [rng.choice(inst) for _ in range(nO)]
+        P['o_start'] = st
+        P['o_end'] = [rng.choice([v for v in inst if v >= s0] or [s0]) for s0 in st]
+        P['o_capa'] = [rng.choice([-2.0, -1.0, 0.5, 1.0, 3.0]) for _ in range(nO)]
+        P['o_price'] = [rng.choice([-1.0, 0.0, 1.0, 2.5]) for _ in range(nO)]
+        return P
+
     def native(self, case, P):
         import numpy as np
         import pandas as pd
